@@ -133,6 +133,9 @@ pub fn answer_fn(f: u32, mid: u8) -> impl Fn(&Unimock, u8) -> i64 + Send + Sync 
         let leaf = -((f as i64) * 10 + x as i64);
         if f % 10 == 9 {
             user_panic()
+        } else if f % 10 == 7 {
+            let _parked: &Unimock = u.make_ref(u.clone());
+            leaf
         } else if f % 10 == 8 {
             leaf + call_method(u, sibling(mid, 1), 0)
         } else {
